@@ -89,6 +89,24 @@ def sqEuclid [Add K] [Sub K] [Zero K] [Mul K] {n D : Nat} (X : Mat n D K) (i j :
 /-- pairwise squared distances between the rows of an embedding: the level at which two embeddings are compared -/
 def rowSqDist [Add K] [Sub K] [Zero K] [Mul K] {n d : Nat} (Y : Mat n d K) : Mat n n K := sqEuclid Y
 
+/-! ### eigen-systems (the eigensolver is a parameter with a contract, DESIGN §1) -/
+
+/-- `(V, lam)` is an orthonormal eigen-system of `B`: `B V = V diag(lam)` and `Vᵀ V = 1` -/
+def IsEigSys [Add K] [Zero K] [Mul K] [One K] {n d : Nat} (B : Mat n n K) (V : Mat n d K) (lam : Vec d K) : Prop :=
+  (∀ i c, (sumFin n fun j => B i j * V j c) = lam c * V i c) ∧
+  (∀ c c', (sumFin n fun i => V i c * V i c') = if c = c' then 1 else 0)
+
+/-- … and it is a *top* one: an eigenvector of `B` orthogonal to all columns of `V` has an eigenvalue
+    that does not exceed any of the selected ones -/
+def IsTopEig [Add K] [Zero K] [Mul K] [One K] [LE K] {n d : Nat} (B : Mat n n K) (V : Mat n d K) (lam : Vec d K) : Prop :=
+  IsEigSys B V lam ∧
+  ∀ (μ : K) (w : Vec n K), (∃ i, w i ≠ 0) → (∀ i, (sumFin n fun j => B i j * w j) = μ * w i) →
+    (∀ c, (sumFin n fun i => w i * V i c) = 0) → ∀ c, μ ≤ lam c
+
+/-- the embedding built from an eigen-system: column `c` of `V` scaled by `s c` (`s c = sqrt (lam c)` in MDS,
+    Isomap, Kernel PCA; `sqrt` enters as any `s ≥ 0` with `s² = lam`) -/
+def embedOf [Mul K] {n d : Nat} (V : Mat n d K) (s : Vec d K) : Mat n d K := fun i c => V i c * s c
+
 /-! ### triplet assembly -/
 
 abbrev Triplet (n : Nat) (K : Type) := Fin n × Fin n × K
@@ -120,9 +138,11 @@ def StronglyConnected {n : Nat} (G : Graph n) : Prop := ∀ a b, Reach G a b
 /-- what `is_connected` decides: everything is reachable *from sample 0* -/
 def ReachFromFirst {n : Nat} (G : Graph n) : Prop := ∀ (h : 0 < n) (b : Fin n), Reach G ⟨0, h⟩ b
 
-/-- one round of expansion of a vertex set (kept duplicate-free) -/
-def expand {n : Nat} (G : Graph n) (S : List (Fin n)) : List (Fin n) :=
-  S.foldl (fun acc a => (G a).foldl (fun acc' b => if b ∈ acc' then acc' else acc' ++ [b]) acc) S
+/-- append `b` unless it is already there -/
+def addNew {α : Type} [DecidableEq α] (acc : List α) (b : α) : List α := if b ∈ acc then acc else acc ++ [b]
+
+/-- one round of expansion of a vertex set: add every out-neighbour of a member (no duplicates added) -/
+def expand {n : Nat} (G : Graph n) (S : List (Fin n)) : List (Fin n) := (S.flatMap G).foldl addNew S
 
 def expandN {n : Nat} (G : Graph n) : Nat → List (Fin n) → List (Fin n)
   | 0, S => S
